@@ -9,6 +9,8 @@ import Proofs.ProbingBuildChainStep
 import Proofs.ProbingBuildChainSem
 import Proofs.ArpaOKCheck
 import Proofs.ProbingRestFold
+import Proofs.ProbingRestScore
+import Proofs.ProbingRestChain
 import Properties.C03
 /-! C03/C01 — the probing *builder* inside the model (`Model/ProbingBuild.lean` = lm/search_hashed.cc ReadNGrams,
 FindLower, AdjustLower, MarkLower, activate, unigram sign fix, missing-`<unk>` fix-up).
@@ -21,9 +23,12 @@ for every proper loadable ARPA**: blank chains of any length over a basis of any
 `unkBasis`, section order, distinct n-grams, hash injectivity per order, capacity).  `demoPruned_represents` /
 `demoPruned_end_to_end` instantiate them on a model with a two-level chain.  Excluded (known finding
 `blank-based-on-hallucinated-unk`): blanks based on a hallucinated `<unk>`.
-`MaxRestBuild` (`rest = true`, REST_MAX): `probing_rest_build_closed_partial` proves, for models without blanks, that the
-builder succeeds and stores `rest = max(prob, max over left extensions)` (`restOf`) next to the `NoRestBuild` payload;
-blank chains under `MaxRestBuild` and the repackaging as `Represents`/`FullScore.rest` are open (differential check only).
+`MaxRestBuild` (`rest = true`, REST_MAX), models without blanks: `probing_rest_build_represents_closed` (`RepresentsR` with
+`R := restOf a Sf` = C08's `maxRest`, `probing_rest_is_maxRest`), `probing_rest_refines` (the built structure answers like
+`KV.Left.restSearch T R`, the search C08's theorems are stated for) and `probing_rest_end_to_end_closed` (`FullScore.prob` =
+ARPA recursion, `FullScore.rest` = `restOf` of the longest match).  Blank chains under `MaxRestBuild`: loop lemmas and the
+operational part up to `AdjustLower` (`probing_rest_chain_adjust_partial`); the `MarkLower` tail and the key-level evaluation
+of `rest` on chains are open (differential check only).
 Superseded, kept for the audit lists: `ProbingBuildRepresents` (def), `probing_end_to_end_partial`, `_closed`, `_blank1`,
 `_single`, `probing_chain_line_partial`. -/
 namespace KV.C03ProbingBuild
@@ -454,5 +459,102 @@ theorem restOf_is_max (a : Arpa) (S : List Key) (k : Key) :
     val a k ≤ restOf a S k ∧ (∀ k' ∈ S, k <+: k' → val a k' ≤ restOf a S k) ∧
     (∀ B, val a k ≤ B → (∀ k' ∈ S, k <+: k' → val a k' ≤ B) → restOf a S k ≤ B) :=
   ⟨restOf_ge_self a S k, fun k' hk hp => restOf_ge_mem a S k k' hk hp, fun B h0 h => restOf_le a S k B h0 h⟩
+
+/-! ### REST_MAX end to end for models without blanks -/
+
+/-- **`probing_rest_build_represents_closed`** — `probing_rest_build_closed_partial` repackaged: the structure built with
+`MaxRestBuild` **represents** `Table.build a` with the rest function `R := restOf a Sf` (`Sf` = the keys of the table):
+`RepresentsR` = `Represents` with `rest = R g` in every payload (and `R [w]` for unigrams). -/
+theorem probing_rest_build_represents_closed (combine : Nat → Word → Nat) (a : Arpa) (nWords : Nat) (buckets : List Nat) (um : Rat)
+    (ok : ArpaOK' a nWords um) (hu : a.unkHallucinated = false)
+    (hcount : nWords ≤ (a.entries.filter fun p => p.1.length == 1).length)
+    (hcls : ∀ q ∈ ngramLines a, ClsC a q.1)
+    (hsorted : (ngramLines a).Pairwise (fun p q => p.1.length ≤ q.1.length))
+    (hdist : (a.entries.map (·.1)).Nodup)
+    (hinj : ∀ k k', IsKey a k → IsKey a k' → k.length = k'.length → hashOf combine k = hashOf combine k' → k = k')
+    (hcaps : ∀ m, (keysOf (foldKeys [] (ngramLines a)) m).length < capOf buckets m) :
+    ∃ s Mmid Mlong, build combine true a nWords buckets um = .ok s ∧
+      RepresentsR combine (toPLM true a.order s) (Table.build a) (restOf a (foldKeys [] (ngramLines a))) Mmid Mlong := by
+  obtain ⟨s, hb, inv, ffin⟩ := build_rest_inv_closed combine a nWords buckets um ok hu hcount hcls hsorted hdist hinj hcaps
+  obtain ⟨Mmid, Mlong, rep⟩ := representsR_of_invT combine a nWords um ok hu (capOf buckets) _ ffin s inv
+  exact ⟨s, Mmid, Mlong, hb, rep⟩
+
+/-- **`probing_rest_refines`** — a probing structure with rest costs that `RepresentsR` the table answers `FullScore` exactly
+like `KV.Left.restSearch T R`, the search over the abstract table whose `Rest()` is `R`.  C08's theorems (`extendLeft_eq`,
+`any_derivation`, `reveal_*` …) are stated over `restSearch T R` for an arbitrary `R`: with this refinement they apply to the
+built `RestProbingModel` with `R := restOf a Sf`. -/
+theorem probing_rest_refines (combine : Nat → Word → Nat) (P : KV.ProbingLM.PLM) (T : Table) (R : List Word → Rat)
+    (Mmid : Nat → Nat → Option Nat) (Mlong : Nat → Option Nat)
+    (rep : RepresentsR combine P T R Mmid Mlong) (inj : HashInjective combine T) (hN : 2 ≤ T.order) (s : State) (w : Word) :
+    (fullScore (KV.ProbingLM.search combine P) s w).1.prob = (fullScore (KV.Left.restSearch T R) s w).1.prob ∧
+    (fullScore (KV.ProbingLM.search combine P) s w).1.ngramLength = (fullScore (KV.Left.restSearch T R) s w).1.ngramLength ∧
+    (fullScore (KV.ProbingLM.search combine P) s w).1.independentLeft = (fullScore (KV.Left.restSearch T R) s w).1.independentLeft ∧
+    (fullScore (KV.ProbingLM.search combine P) s w).1.rest = (fullScore (KV.Left.restSearch T R) s w).1.rest ∧
+    (fullScore (KV.ProbingLM.search combine P) s w).2 = (fullScore (KV.Left.restSearch T R) s w).2 :=
+  fullScore_sim _ _ _ (probing_simR combine P T R Mmid Mlong rep inj hN)
+    (by show 2 ≤ P.order; rw [rep.order]; exact hN) s w
+
+/-- **`probing_rest_end_to_end_closed`** — REST_MAX end to end for models without blanks: on the structure `build … true`
+produces, `FullScore` returns the ARPA recursion as probability, and its `rest` is `restOf a Sf` of the longest matching
+n-gram `w :: ctx.take c0` (whenever that is not of the highest order, where the code returns `rest = prob`): the maximum
+of that n-gram's probability and the probabilities of all n-grams of the model that extend it to the left. -/
+theorem probing_rest_end_to_end_closed (combine : Nat → Word → Nat) (a : Arpa) (nWords : Nat) (buckets : List Nat) (um : Rat)
+    (ok : ArpaOK' a nWords um) (hu : a.unkHallucinated = false)
+    (hcount : nWords ≤ (a.entries.filter fun p => p.1.length == 1).length)
+    (hcls : ∀ q ∈ ngramLines a, ClsC a q.1)
+    (hsorted : (ngramLines a).Pairwise (fun p q => p.1.length ≤ q.1.length))
+    (hdist : (a.entries.map (·.1)).Nodup)
+    (hinj : ∀ k k', IsKey a k → IsKey a k' → k.length = k'.length → hashOf combine k = hashOf combine k' → k = k')
+    (hcaps : ∀ m, (keysOf (foldKeys [] (ngramLines a)) m).length < capOf buckets m)
+    (inj : HashInjective combine (Table.build a))
+    (h : List Word) (st : State) (sf : StateFor a h st) (w : Word) (hw : a.gram [w] ≠ none) :
+    ∃ s, build combine true a nWords buckets um = .ok s ∧
+      (fullScore (KV.ProbingLM.search combine (toPLM true a.order s)) st w).1.prob = score a h w ∧
+      ∃ c0, (fullScore (KV.ProbingLM.search combine (toPLM true a.order s)) st w).1.ngramLength = 1 + c0 ∧
+        (1 + c0 < a.order →
+          (fullScore (KV.ProbingLM.search combine (toPLM true a.order s)) st w).1.rest =
+            restOf a (foldKeys [] (ngramLines a)) (w :: (st.words.take st.length).take c0)) := by
+  obtain ⟨s, Mmid, Mlong, hb, rep⟩ := probing_rest_build_represents_closed combine a nWords buckets um ok hu hcount hcls hsorted
+    hdist hinj hcaps
+  obtain ⟨hp, hl, _, hr, _⟩ := probing_rest_refines combine _ _ _ Mmid Mlong rep inj ok.wf.order_ge st w
+  have hne : (Table.build a).lookup [w] ≠ none := by
+    rw [build_lookup_ne_none]; exact ⟨by simp, Or.inl hw⟩
+  obtain ⟨t, ht⟩ := Option.ne_none_iff_exists'.mp hne
+  obtain ⟨c0, _, hlen, _, hrest⟩ := KV.Left.fullScore_rest_spec (Table.build a) (restOf a (foldKeys [] (ngramLines a)))
+    (build_tableFor a ok.wf _).toTableOK st w t ht
+  refine ⟨s, hb, ?_, c0, by rw [hl]; exact hlen, fun hlt => by rw [hr]; exact hrest hlt⟩
+  rw [hp, (KV.Left.fullScore_sim (Table.build a) _ st w).1]
+  exact KV.C01.fullScore_prob a ok.wf (fun _ => false) h st sf w hw
+
+/-- **`probing_rest_is_maxRest`** — the rest function proved for the built structure is `KV.Left.maxRest (Table.build a) Sf`,
+the definition of `MaxRestBuild`'s rest costs C08 works with (maximum of `prob` over the entry and all table entries having it
+as a reversed prefix) -/
+theorem probing_rest_is_maxRest (a : Arpa) (wf : WellFormed a) (Sf : List Key) (f : Final a Sf) (g : Key)
+    (hg : (Table.build a).lookup g ≠ none) : restOf a Sf g = KV.Left.maxRest (Table.build a) Sf g :=
+  restOf_eq_maxRest a wf Sf f g hg
+
+/-- **Blank chains under `MaxRestBuild`, operational part up to `AdjustLower` (partial).**  For a line with `L ≥ 1` missing
+suffixes over a basis of order `b`, from any state described by a key-indexed payload function `want0`: insertion,
+`FindLower` and `AdjustLower` with `rest = true` succeed and leave the payloads `want1` (blanks appended, line inserted)
+updated by `fillUsT` (blank probabilities filled bottom-up, each blank's `rest` = its probability) and `markUsT`
+(`MarkExtends` along the chain with the chained `longerRest`, starting from the line's `rest`).  Loop lemmas
+`fillBlanks_chainT`, `markChain_chainT`, `adjustLower_chainT`.  Not proved: the `MarkLower`/`activate` tail on this state
+(`markLower_chain` applies once monotonicity of the intermediate `rest` values is shown) and the key-level evaluation
+(`rest` of a new blank = maximum over the chain above it), hence no `probing_rest_build_represents` for models with blanks. -/
+theorem probing_rest_chain_adjust_partial (combine : Nat → Word → Nat) (a : Arpa) (u0 : List W) (N : Nat) (caps : Nat → Nat)
+    (S : List Key) (s : St) (want0 : Key → W) (h : StP combine N caps u0.length s (keysOf S) want0) (si : SInv a S)
+    (p : Key) (e : Entry) (lc : LC combine a u0 N caps S p e) (b L : Nat) (hb : 1 ≤ b) (hL : 1 ≤ L) (hpl : p.length = b + L + 1)
+    (hbasis : b = 1 ∨ p.take b ∈ S) (hmiss : ∀ j, b < j → j ≤ b + L → p.take j ∉ S)
+    (hcapn : (keysOf S (b + L + 1)).length + 1 < caps (b + L + 1))
+    (hcapj : ∀ j, b < j → j ≤ b + L → (keysOf S j).length + 1 < caps j) :
+    ∃ s3 Ks' want1,
+      (insPhase combine N s p e >>= fun s1 => findLower combine p (p.length - 2) s1 [] >>= fun r =>
+        adjustLower combine true (lineW e).rest p p.length r.2 r.1) = .ok s3 ∧
+      (∀ m, Ks' m = if b < m ∧ m ≤ b + L then keysOf (S ++ [p]) m ++ [p.take m] else keysOf (S ++ [p]) m) ∧
+      (∀ k, want1 k = if b < k.length ∧ k.length ≤ b + L ∧ k = p.take k.length then blankW else updW want0 p (lineW e) k) ∧
+      StP combine N caps u0.length s3 Ks'
+        (applyUpd (applyUpd want1 (fillUsT want1 p L b (-(want1 (p.take b)).mag)))
+          (markUsT (applyUpd want1 (fillUsT want1 p L b (-(want1 (p.take b)).mag))) (chainKeys p b L) (lineW e).rest)) :=
+  addLine_chainT_adjust combine a u0 N caps S s want0 h si p e lc b L hb hL hpl hbasis hmiss hcapn hcapj
 
 end KV.C03ProbingBuild
